@@ -629,6 +629,10 @@ def run_rseq(origin, mid, flags, max_size, ops):
         except Exception as e:  # noqa
             res.append(exc_code(e))
             break
+        # what reserve() takes from the budget is exactly what release_reserved() gives back
+        if r.max_size + r.reserved != max_size:
+            res.append(99)
+            break
     try:
         r.write_header()
         w = r.get_wire()
@@ -1346,6 +1350,26 @@ def gen_rapi(rng, origin=None):
     if rng.random() < 0.1:
         rng.shuffle(post)
     return [mid, flags, max_size, pre + ops + post]
+
+
+def gen_rapi_near(rng, ms, delta):
+    """Renderer API with reserve() calls whose sum comes within a few octets of max_size - 12, records added
+    while the reserve is held and after it was released"""
+    total = ms - 12 + delta
+    a = rng.choice([total, total // 2, total - 11, 11])
+    pre = [[10, a]]
+    if total - a > 0:
+        pre.append([10, total - a])
+    q = [0, [b"q", b"example", b""], IN, A]
+    rs = [1, [[b"a", b"example", b""], IN, A, 0, None, 60, [[bytes([10, 0, 0, rng.randrange(256)])]]]]
+    big = [rng.choice([1, 2, 3]), [[b"t", b"example", b""], IN, TXT, 0, None, 60,
+                                   [[bytes([rng.choice([1, 9, 14])]) + bytes(14)]]]]
+    ops = pre + rng.choice([[], [q], [q, rs]]) + [[11]]
+    if rng.random() < 0.5:
+        ops += [[10, rng.choice([0, 5, 12])], rs, [11]]
+    n = max(0, ms - 12 - 15 + rng.choice([-30, -3, 0, 1, 12, 13]))
+    ops += rng.choice([[], [big], [[12, [0, 1232, [[65001, bytes(n)]]], 0, 15 + n, 0]], [big, [13]]])
+    return [4660, 0, ms, ops]
 
 
 def rr_list(am, origin):
